@@ -163,6 +163,16 @@ func mutations(r *spec.Rand, w []byte, emit func(kind string, b []byte)) {
 				re("remlen-off", rc.AppendVarint(nil, remlen+d))
 			}
 		}
+		// a remaining length larger than the body, with that many extra bytes supplied (the packet is
+		// complete as far as its length field goes, but longer than its type allows)
+		for _, d := range []int{1, 2, 3} {
+			m := append([]byte{w[0]}, rc.AppendVarint(nil, remlen+d)...)
+			m = append(m, body...)
+			for k := 0; k < d; k++ {
+				m = append(m, byte(k))
+			}
+			emit("remlen-off-padded", m)
+		}
 		re("remlen-zero", []byte{0})
 		re("remlen-5byte", []byte{0xff, 0xff, 0xff, 0xff, 0x01})
 		re("remlen-5byte", []byte{0x80, 0x80, 0x80, 0x80, 0x01})
